@@ -27,36 +27,73 @@ _SC = float(os.environ.get("HV_A7_SCALE", "1"))  # development only: scale the b
 
 PROP = "C09"
 CLAIMED = True
-COQ_MODULES = ["Stats", "StatsR", "C15_Model", "C15_Check", "C15_Proofs", "C09_Model", "C09_Check", "C09_Proofs"]
+COQ_MODULES = ["Stats", "StatsR", "C15_Model", "C15_Check", "C15_Proofs", "C09_Model", "C09_Check", "C09_Proofs",
+               "C09_ProofsModel", "C09_ProofsStd", "C09_ProofsFloat"]
 PROPERTY_MODULE = "C09_Property"
-# exactly as Print Assumptions prints them for the one theorem over the reals
+# exactly as Print Assumptions prints them.
 ALLOWED_AXIOMS = [
+    # (1) the standard library's axioms of the real numbers (theorems over R: standardisation, rnd64)
     "ClassicalDedekindReals.sig_not_dec",
     "ClassicalDedekindReals.sig_forall_dec",
     "FunctionalExtensionality.functional_extensionality_dep",
+    "Classical_Prop.classic",
+    # (2) NOT axioms: Coq's kernel primitives (machine floats / 63-bit integers).  Print Assumptions lists them for every
+    #     statement that mentions a float - all checker-soundness theorems do, the case records hold doubles
+    "PrimFloat.float", "PrimFloat.abs", "PrimFloat.add", "PrimFloat.div", "PrimFloat.eqb", "PrimFloat.frshiftexp",
+    "PrimFloat.ldshiftexp", "PrimFloat.ltb", "PrimFloat.mul", "PrimFloat.normfr_mantissa", "PrimFloat.of_uint63",
+    "PrimFloat.opp",
+    "PrimInt63.int", "PrimInt63.add", "PrimInt63.eqb", "PrimInt63.land", "PrimInt63.leb", "PrimInt63.lor", "PrimInt63.lsl",
+    "PrimInt63.lsr", "PrimInt63.ltb", "PrimInt63.sub",
+    # (3) the standard library's specification of those primitives against SpecFloat / Z (Floats.FloatAxioms, Uint63),
+    #     used - through Flocq's IEEE754.PrimFloat bridge - by C09_k_of_floor, C09_case_count_from_K, C09_holds_case_count:
+    #     the same facts that are trusted whenever k_of is evaluated by vm_compute
+    "FloatAxioms.Prim2SF_SF2Prim", "FloatAxioms.Prim2SF_valid", "FloatAxioms.SF2Prim_Prim2SF", "FloatAxioms.mul_spec",
+    "FloatAxioms.of_uint63_spec",
+    "Uint63.add_spec", "Uint63.eqb_correct", "Uint63.eqb_refl", "Uint63.leb_spec", "Uint63.lor_spec", "Uint63.lsl_spec",
+    "Uint63.lsr_spec", "Uint63.ltb_spec", "Uint63.of_to_Z", "Uint63.sub_spec",
 ]
 RULE = (
-    "run: dosage matrices of SNPs, haplotype pseudo-genotypes and repeat counts (up to 253 per allele) incl. constant "
-    "columns, 0-4 effects incl. duplicate and absent IDs, betas incl. 0, negative and sum beta^2 > 1, all combinations of "
-    "{heritability, environment, normalize} x prevalence in {None, 0, K with K*n an integer +- 1 ulp, 0.29, 0.35, 0.999}, "
-    "scripted noise from a small grid so that liabilities tie, 1-3 replicates (calls with the same signature on one "
-    "simulator), in a third of the cases after 1-3 prior calls on the SAME simulator that differ in one respect (trait "
-    "type only, betas, normalize, heritability/environment, sub-list of the effects). Non-trivial = at least one effect "
-    "found and (a non-constant column or prevalence given). Distinct = distinct canonical JSON."
+    "run: dosage matrices of SNPs, haplotype pseudo-genotypes (uint8 or, as after check_biallelic, bool data) and repeat "
+    "counts (up to 253 per allele; a class with 128..253 copies on BOTH strands so that the dosage exceeds 255) incl. "
+    "constant columns, 0-4 effects incl. duplicate and absent IDs (once per run 256..300 effects), betas incl. 0, negative "
+    "and sum beta^2 > 1, all combinations of {heritability, environment, normalize} x prevalence in {None, 0, K with K*n an "
+    "integer +- 1 ulp, 0.29, 0.35, 0.999}, scripted noise from a small grid so that liabilities tie, 1-3 replicates (calls "
+    "with the same signature on one simulator), in a third of the cases after 1-3 prior calls on the SAME simulator that "
+    "differ in one respect (trait type only, betas, normalize, heritability/environment, sub-list of the effects); once per "
+    "run 255/256/257 samples; 3 % prevalences outside [0,1) (1, >1, <0: compared with the model only). e2e: additionally "
+    "repeats with 128..253 copies per allele, missing calls and (class tr-copy>253) repeat alleles too long for the uint8 "
+    "store. Non-trivial = at least one effect found and (a non-constant column or prevalence given). Distinct = distinct "
+    "canonical JSON."
 )
 TRUSTED = [
-    "numpy Generator.normal is replaced by a scripted recorder: 'eps is i.i.d. normal' is read structurally (exactly one "
-    "rng.normal(0, sqrt(noise), n) draw per replicate from the simulator's one generator)",
+    "numpy Generator.normal is replaced by a scripted recorder: 'eps is i.i.d. normal with mean 0 and the documented "
+    "variance' is read structurally (exactly one rng.normal(0, sqrt(noise), n) draw per replicate from the simulator's one "
+    "generator; loc, scale and size are all demanded by holds)",
     "np.argpartition's choice among tied liabilities is a contract (any top-k set); the check accepts every valid choice",
     "comparisons involving sqrt or a float sum use a 1e-9 tolerance relative to the magnitude of the operands; "
     "the case count floor(K*n) and the liabilities fl(g+eps) are evaluated bit-exactly with PrimFloat",
-    "tr_harmonizer / file loading are outside this relation: the model starts from the dosage matrix haptools loaded",
+    "Coq's primitive floats/integers implement IEEE-754 binary64 / arithmetic mod 2^63 as the standard library specifies "
+    "(FloatAxioms, Uint63 axioms): trusted by every vm_compute evaluation of k_of and assumed by C09_k_of_floor",
+    "tr_harmonizer / file loading are outside the model: the model starts from the dosage matrix the harness expects "
+    "haptools to load (requested samples and variants in file order; repeat copy number = allele length / period)",
 ]
 ASSUMPTIONS = [
     "genotype variant IDs pairwise distinct (otherwise index() raises; compared for agreement only)",
-    "heritability in (0,1], environment >= 0, prevalence in [0,1), n >= 1 samples",
-    "standardize_mean0_var1 is a theorem over the reals and uses the standard library's real-number axioms",
+    "heritability in (0,1], environment >= 0, prevalence in [0,1) (other prevalences: agreement with the model only), "
+    "n >= 1 samples, n < 2^53 in C09_k_of_floor",
+    "the theorems over the reals (standardize_mean0_var1, zcol_exact_sound, k_of_floor) use the standard library's "
+    "real-number axioms; k_of_floor / case_count_from_K / holds_case_count also the library's specification of the "
+    "primitive floats and integers (Flocq bridge)",
+    "missing calls and repeat alleles that cannot be stored: a ValueError is accepted (and expected), an answer is checked",
 ]
+
+# A tandem-repeat allele with more than 253 copies cannot be stored in the uint8 genotype array (254/255 are the
+# missing-data sentinels).  The tree as it is casts the copy number to uint8: 256 copies become 0, 300 become 44, and the
+# phenotypes are computed from those values without any message (254/255 copies are reported as "missing").  With the switch
+# on, the check demands a ValueError up front (fixes/C09_tr_copy_range.patch) or a correct answer; with it off (the tree before fix 1af7671; the switch is on by default now: the
+# behaviour of the tree as it is) the loader is modelled as it behaves now (copy number mod 256) and the demand is not made.
+# Also settable with HV_C09_STRICT_TR_RANGE=1.
+STRICT_TR_RANGE = os.environ.get("HV_C09_STRICT_TR_RANGE", "1") == "1"
 
 BETAS = [0.0, 0.1, -0.1, 0.25, 0.3, -0.3, 0.5, 0.6, 0.8, 1.0, 1.5, -2.0, 0.05, 0.001, 0.2, 0.7]
 EPS = [0.0, 0.5, -0.5, 1.0, -1.0, 0.25, 2.0]
@@ -74,8 +111,14 @@ def quiet_logger():
     return lg
 
 
-def prevalences(rng, n):
+OUT_OF_DOMAIN_PREV = [1.0, 1.0000000000000002, 1.2, 1.5, 2.0, 3.0, -0.0, -0.1, -0.3, -0.5, -1.0, -1.5]
+
+
+def prevalences(rng, n, outside=True):
     r = rng.random()
+    if outside and r < 0.03:
+        # outside [0,1): k = n (everybody), k > n or k < -n (argpartition raises), -n <= k < 0 (numpy counts from the end)
+        return float(rng.choice(OUT_OF_DOMAIN_PREV))
     if r < 0.35:
         return None
     if r < 0.42:
@@ -109,7 +152,11 @@ class Run(Relation):
         return "From Coq Require Import PrimFloat."
 
     def _column(self, rng, n):
-        c = int(rng.integers(0, 6))
+        c = int(rng.integers(0, 7))
+        if c == 6:
+            # 128..253 copies on BOTH strands: every dosage is >= 256 (does not fit the uint8 the alleles are stored in)
+            lo = int(rng.choice([128, 128, 200, 250]))
+            return [[int(rng.integers(lo, 254)), int(rng.integers(lo, 254))] for _ in range(n)], "repeat-sum>=256"
         if c == 0:
             v = [int(rng.integers(0, 3))] * 2
             return [[v[0] // 2 + v[0] % 2, v[0] // 2] for _ in range(n)], "constant"
@@ -165,10 +212,39 @@ class Run(Relation):
             case = {"gids": gids, "gt": gt, "phase": bool(rng.random() < 0.3), "eff": eff, "h2": h2, "env": env,
                     "norm": bool(rng.random() < 0.6), "prev": prevalences(rng, n), "eps": eps, "kind": kind,
                     "labs": sorted(set(labs))}
+            if all(a <= 1 for row in gt for ab in row for a in ab) and rng.random() < 0.3:
+                case["dtype"] = "bool"      # Genotypes.data after check_biallelic()
             if rng.random() < 0.35:
                 case["hist"] = self._history(rng, case, n)
             out.append(case)
+        # width boundaries (few: each costs a large literal): 255 / 256 / 257 samples, 256..300 effects
+        for _ in range(1 if tier == "quick" else 6):
+            out.append(self._wide_samples(rng))
+            out.append(self._many_effects(rng))
         return out
+
+    @staticmethod
+    def _wide_samples(rng):
+        n = int(rng.choice([255, 256, 257]))
+        big = bool(rng.random() < 0.5)
+        col = [[int(rng.integers(128, 254)), int(rng.integers(128, 254))] if big else
+               [int(rng.integers(0, 2)), int(rng.integers(0, 2))] for _ in range(n)]
+        prev = None if rng.random() < 0.3 else float(rng.choice([0.5, 0.999, 1 / 256, 255 / 256, 0.29]))
+        return {"gids": ["v0"], "gt": [[c] for c in col], "phase": False, "eff": [["v0", float(rng.choice([0.5, -0.25, 1.0]))]],
+                "h2": None if rng.random() < 0.5 else 0.5, "env": None, "norm": bool(rng.random() < 0.5), "prev": prev,
+                "eps": [[float(rng.choice(EPS)) for _ in range(n)]], "kind": "width-samples",
+                "labs": ["repeat-sum>=256" if big else "snp/hap", f"n={n}"]}
+
+    @staticmethod
+    def _many_effects(rng):
+        n, p = 2, int(rng.integers(1, 4))
+        m = int(rng.choice([255, 256, 257, 300]))
+        gids = [f"v{j}" for j in range(p)]
+        gt = [[[int(rng.integers(0, 2)), int(rng.integers(0, 2))] for _ in range(p)] for _ in range(n)]
+        eff = [[gids[int(rng.integers(0, p))], float(rng.choice([0.0, 0.001, -0.001, 0.05]))] for _ in range(m)]
+        return {"gids": gids, "gt": gt, "phase": False, "eff": eff, "h2": None, "env": None if rng.random() < 0.5 else 1.0,
+                "norm": False, "prev": None, "eps": [[0.5, -0.5]], "kind": "width-effects",
+                "labs": ["snp/hap", f"effects={m}"]}
 
     @staticmethod
     def _history(rng, case, n):
@@ -227,6 +303,8 @@ class Run(Relation):
             arr[:, :, :2] = np.array(inp["gt"], dtype=np.uint8).reshape(n, p, 2)
             if inp["phase"]:
                 arr[:, :, 2] = 1
+            if inp.get("dtype") == "bool":
+                arr = arr.astype(np.bool_)
             g.data = arr
             effects = [Effect(id=e[0], beta=e[1]) for e in inp["eff"]]
 
@@ -314,7 +392,7 @@ class Run(Relation):
         else:
             ot = f"(Err {L.z(obs.get('err', obs.get('kind', 99)))})"
         return (f"(mkr {L.lst(inp['gids'], chars)} {gt} {eff} {L.opt(inp['h2'], H)} {L.opt(inp['env'], H)} "
-                f"{L.b(inp['norm'])} {L.opt(inp['prev'], H)} {ot})")
+                f"{L.b(inp['norm'])} {L.opt(inp['prev'], H)} {L.opt(inp.get('refuse'), lambda r: f"({L.z(r[0])}, {L.b(r[1])})")} {ot})")
 
     def _found(self, inp):
         return [e for e in inp["eff"] if e[0] in inp["gids"]]
@@ -324,7 +402,10 @@ class Run(Relation):
 
     def classes(self, inp, obs):
         out = [inp["kind"], f"h2={'given' if inp['h2'] is not None else 'none'}", f"env={'given' if inp['env'] is not None else 'none'}",
-               "normalize" if inp["norm"] else "raw", f"R={len(inp['eps'])}", f"effects={len(inp['eff'])}"] + list(inp["labs"])
+               "normalize" if inp["norm"] else "raw", f"R={len(inp['eps'])}",
+               f"effects={len(inp['eff'])}" if len(inp["eff"]) <= 4 else "effects>=255"] + [l for l in inp["labs"] if not l.startswith("effects=")]
+        if inp.get("dtype") == "bool":
+            out.append("bool-data")
         out.append(f"prior-calls-on-the-simulator={len(inp.get('hist', []))}")
         out += ["prior-call:" + h["what"] for h in inp.get("hist", [])]
         if inp["prev"] is None:
@@ -332,7 +413,8 @@ class Run(Relation):
         else:
             n = len(inp["gt"])
             kn = inp["prev"] * n
-            out.append("K=0" if inp["prev"] == 0 else "K*n-integer" if kn == int(kn) else
+            out.append("K-outside-[0,1)" if not 0 <= inp["prev"] < 1 else
+                       "K=0" if inp["prev"] == 0 else "K*n-integer" if kn == int(kn) else
                        "K*n-within-1ulp-of-integer" if abs(kn - round(kn)) < 1e-12 else "K*n-fractional")
         if sum(e[1] ** 2 for e in inp["eff"]) > 1:
             out.append("sum-beta2>1")
@@ -431,7 +513,7 @@ def write_vcf(path_gz, samples, variants, gt, tr=False):
         f.write("#CHROM\tPOS\tID\tREF\tALT\tQUAL\tFILTER\tINFO\tFORMAT\t" + "\t".join(samples) + "\n")
         for j, v in enumerate(variants):
             f.write(f"{v[0]}\t{v[1]}\t{v[2]}\t{v[3]}\t{v[4]}\t.\t.\t{v[5]}\tGT\t"
-                    + "\t".join(f"{gt[i][j][0]}|{gt[i][j][1]}" for i in range(len(samples))) + "\n")
+                    + "\t".join("|".join("." if a < 0 else str(a) for a in gt[i][j]) for i in range(len(samples))) + "\n")
     pysam.tabix_compress(plain, path_gz, force=True)
     pysam.tabix_index(path_gz, preset="vcf", force=True)
     os.unlink(plain)
@@ -452,6 +534,7 @@ def write_pgen(prefix, samples, variants, gt):
     w = pgenlib.PgenWriter(filename=(prefix + ".pgen").encode(), sample_ct=len(samples), variant_ct=len(variants),
                            nonref_flags=False, hardcall_phase_present=True)
     arr = np.array(gt, dtype=np.int32)
+    arr[arr < 0] = -9
     for j in range(len(variants)):
         w.append_alleles(np.ascontiguousarray(arr[:, j, :].reshape(-1)), all_phased=True)
     w.close()
@@ -478,9 +561,20 @@ class E2E(Run):
             pos = sorted(int(x) for x in rng.choice(np.arange(100, 5000), size=p, replace=False))
             if mode == "repeat":
                 variants, counts = [], []
+                r = rng.random()
+                regime = "small" if r < 0.6 else "big" if r < 0.9 else "over"
                 for j in range(p):
-                    m = str(rng.choice(MOTIFS))
-                    cts = sorted(set(int(x) for x in rng.integers(1, 40, size=int(rng.integers(2, 5)))))
+                    m = str(rng.choice(MOTIFS)) if regime == "small" else "A"
+                    if regime == "small" or (j and rng.random() < 0.5):
+                        cts = sorted(set(int(x) for x in rng.integers(1, 40, size=int(rng.integers(2, 5)))))
+                    elif regime == "big":
+                        # 128..253 copies: every dosage of two such alleles exceeds 255
+                        cts = sorted(set(int(x) for x in rng.choice([128, 129, 200, 252, 253, int(rng.integers(128, 254))],
+                                                                    size=int(rng.integers(2, 4)))))
+                    else:
+                        # alleles that do not fit the uint8 store (254, 255: the sentinels; 256.. wrap around)
+                        cts = sorted(set([int(rng.integers(1, 40))] + [int(x) for x in rng.choice(
+                            [254, 255, 256, 257, 300, 509, 510, 512, int(rng.integers(256, 600))], size=int(rng.integers(1, 3)))]))
                     if len(cts) < 2:
                         cts = [cts[0], cts[0] + 1]
                     cts = [int(x) for x in rng.permutation(cts)]
@@ -498,6 +592,15 @@ class E2E(Run):
                     for i in range(n):
                         gt[i][j] = [1, 0]  # a constant column
                 vals = gt
+            if rng.random() < 0.08:
+                # a missing call (one or both alleles) somewhere in the file
+                i, j = int(rng.integers(0, n)), int(rng.integers(0, p))
+                which = int(rng.integers(0, 3)) if fmt == "vcf" else 2   # PGEN cannot hold a half-missing call
+                gt = [[list(c) for c in row] for row in gt]
+                vals = [[list(c) for c in row] for row in vals] if vals is not gt else gt
+                for a in ((0,), (1,), (0, 1))[which]:
+                    gt[i][j][a] = -1
+                    vals[i][j][a] = -1
             ids_all = [v[2] for v in variants]
             m = int(rng.integers(1, p + 1))
             eff_ids = [str(x) for x in rng.permutation(ids_all)[:m]]
@@ -535,8 +638,22 @@ class E2E(Run):
         wanted = set(inp["ids"]) if inp["ids"] is not None else set(e[0] for e in inp["effects"])
         cols = [j for j, v in enumerate(inp["variants"]) if v[2] in wanted]
         rows = [i for i, s in enumerate(inp["samples"]) if inp["sel"] is None or s in inp["sel"]]
+        gt = [[list(inp["vals"][i][j]) for j in cols] for i in rows]
+        refuse = None
+        cells = [a for row in gt for c in row for a in c]
+        if any(a < 0 for a in cells):
+            refuse = [1, False]                     # check_missing raises ValueError
+            gt = [[[max(a, 0) for a in c] for c in row] for row in gt]
+        elif any(a > 253 for a in cells):
+            if STRICT_TR_RANGE:
+                refuse = [1, True]                  # must be refused; an answer is checked against the true copy numbers
+            else:
+                # the tree as it is: the copy number is cast to uint8; 254/255 then read as "missing"
+                gt = [[[a % 256 for a in c] for c in row] for row in gt]
+                if any(a >= 254 for row in gt for c in row for a in c):
+                    refuse = [1, False]
         return {"gids": [inp["variants"][j][2] for j in cols], "samples": [inp["samples"][i] for i in rows],
-                "gt": [[inp["vals"][i][j] for j in cols] for i in rows], "eff": eff}
+                "gt": gt, "eff": eff, "refuse": refuse}
 
     def run_impl(self, inp):
         import warnings
@@ -644,7 +761,8 @@ class E2E(Run):
         n = len(exp["gt"])
         eps = obs["ok"]["eps"] if "ok" in obs else [[0.0] * n for _ in range(inp["R"])]
         return {"gids": exp["gids"], "gt": exp["gt"], "eff": exp["eff"], "h2": inp["h2"], "env": inp["env"],
-                "norm": inp["norm"], "prev": inp["prev"], "eps": eps, "phase": False, "kind": "e2e", "labs": [inp["mode"]]}
+                "norm": inp["norm"], "prev": inp["prev"], "eps": eps, "phase": False, "kind": "e2e", "labs": [inp["mode"]],
+                "refuse": exp["refuse"]}
 
     def encode(self, inp, obs):
         return Run.encode(self, self._as_run(inp, obs), obs)
@@ -660,6 +778,18 @@ class E2E(Run):
             out.append("effect-absent-from-genotypes")
         if inp["fmt"] == "pgen":
             out.append(f"chunk={inp['chunk']}")
+        cells = [a for row in inp["vals"] for c in row for a in c]
+        if any(a < 0 for a in cells):
+            out.append("missing-call")
+        if any(a > 253 for a in cells):
+            out.append("tr-copy>253")
+        elif any(c[0] + c[1] >= 256 for row in inp["vals"] for c in row):
+            out.append("tr-sum>=256")
+        exp = self.expected(inp)
+        if exp["refuse"]:
+            out.append("loader-must-refuse")
+        if inp["prev"] is not None and not 0 <= inp["prev"] < 1:
+            out.append("K-outside-[0,1)")
         if "ok" not in obs:
             out.append(f"err{obs.get('err', 'unobserved')}")
         return out
@@ -693,23 +823,29 @@ class E2E(Run):
             return f"e2e simulate_pt raised {obs.get('cls', obs.get('__exc__', '?'))}" + (" with an effect ID absent from the genotypes" if absent else "")
         if absent:
             return "e2e with an effect ID absent from the genotypes: betas applied to other columns"
+        if any(a > 253 for row in self.expected(inp)["gt"] for c in row for a in c):
+            return "e2e repeat allele with more than 253 copies: copy number silently reduced mod 256"
         return f"e2e {inp['mode']}/{inp['fmt']} phenotypes differ from the documented model"
 
 
 RELATIONS = [Run(), E2E()]
 
 LEVEL_TEXT = (
-    "Coq theorems (all effect lists, betas, heritability/environment combinations, liabilities and selections; no size "
-    "bound) about a Gallina model of PhenoSimulator.run over exact rationals, with the case count floor(K*n) evaluated "
-    "bit-exactly by PrimFloat; the model and the property's boolean checkers are evaluated inside Coq on every generated "
-    "call of the implementation run with a scripted noise generator - every call of run() on a simulator (repeated "
-    "calls with one signature and calls after other uses of the same simulator), each against the genetic component "
-    "of a fresh simulator: phenotype k = genetic + eps_k."
+    "Coq theorems (all effect lists, betas, heritability/environment combinations, liabilities, noise vectors and "
+    "selections; no size bound) about a Gallina model of one call of PhenoSimulator.run over exact rationals (run_q: "
+    "alignment, dosage, sum beta Z + eps, documented noise variance, threshold), the case count floor(fl(K*n)) proved from "
+    "K and n (k_of_floor: the IEEE-754 product, rounded to nearest even, then floored, lies in [0, n]) and composed with "
+    "argpartition's contract and with the boolean checker; the model and the property's boolean checkers are evaluated "
+    "inside Coq (k_of bit-exactly by PrimFloat) on every generated call of the implementation run with a scripted noise "
+    "generator - every call of run() on a simulator (repeated calls with one signature and calls after other uses of the "
+    "same simulator), each against the genetic component of a fresh simulator: phenotype k = genetic + eps_k."
 )
 LEVEL_NOTE = (
     "partial: 'eps is i.i.d. normal' is a statement about numpy's generator and is only checked structurally (one "
-    "rng.normal(0, sqrt(noise), n) draw per replicate); the square root and float summation are compared to 1e-9, not "
-    "proved; standardize_mean0_var1 is over the reals and depends on the standard library's real-number axioms; "
-    "simulate_pt's file loading (.snplist/.hap, VCF/PGEN, tr_harmonizer) is not part of this relation."
+    "rng.normal(0, sqrt(noise), n) draw per replicate: loc, scale^2 and size are demanded); the square root and float "
+    "summation are compared to 1e-9, not proved (what the 1e-9 z-check guarantees is proved: zcheck_tolerance_sound, "
+    "zcol_second_moment; at tolerance 0 it pins the standardised column: zcol_exact_sound, over the reals); k_of_floor and "
+    "its corollaries rest on the standard library's specification of the primitive floats/integers; "
+    "simulate_pt's file loading (.snplist/.hap, VCF/PGEN, tr_harmonizer) is exercised end to end but not modelled in Coq."
 )
-TECHNIQUE = "Coq proof over Q / R + PrimFloat evaluation + vm_compute-evaluated correspondence against the implementation"
+TECHNIQUE = "Coq proof over Q / R (Flocq for the IEEE product) + PrimFloat evaluation + vm_compute-evaluated correspondence against the implementation"
